@@ -109,6 +109,30 @@ type ResponseWriter struct {
 	pooled    bool
 }
 
+// dropShadowedOPT removes every OPT record of m except the one IsEdns0
+// returns (the last). The common case, at most one OPT, allocates nothing.
+func dropShadowedOPT(m *dns.Msg) {
+	last := -1
+	n := 0
+	for i, rr := range m.Extra {
+		if rr.Header().Rrtype == dns.TypeOPT {
+			last = i
+			n++
+		}
+	}
+	if n < 2 {
+		return
+	}
+	kept := m.Extra[:0:0]
+	for i, rr := range m.Extra {
+		if rr.Header().Rrtype == dns.TypeOPT && i != last {
+			continue
+		}
+		kept = append(kept, rr)
+	}
+	m.Extra = kept
+}
+
 // (*EDNS).ServeDNS serveDNS implements the Handle interface. A wire-born
 // request is served from its parsed OPT facts without decoding; cold
 // protocol errors (foreign opcode, BADVERS) and message-born requests take
@@ -133,6 +157,12 @@ func (e *EDNS) ServeDNS(ctx context.Context, ch *middleware.Chain) {
 		ch.Cancel()
 		return
 	}
+
+	// An OPT RR must be the only one in its message (RFC 6891 6.1.1).
+	// Everything below looks at "the" OPT of the request, the last one
+	// (IsEdns0): any other OPT would ride along untouched, its client
+	// subnet, cookie and private options forwarded to every authority.
+	dropShadowedOPT(req)
 
 	noedns := req.IsEdns0() == nil
 	keepalive := hasClientKeepalive(req)
@@ -311,6 +341,10 @@ func (w *ResponseWriter) WriteMsg(m *dns.Msg) error {
 	if !w.do {
 		m = dnsutil.ClearDNSSEC(m)
 	}
+
+	// A response that brings more than one OPT (a forwarder's upstream, a
+	// plugin) keeps only the one every step below works on.
+	dropShadowedOPT(m)
 
 	if !w.noedns {
 		// Get or create OPT record
